@@ -1,11 +1,46 @@
-(* C07/Props.v — property-level theorems only. Tags [FULL]/[PARTIAL]/[REFUTED] are read by bin/check. *)
+(* C07/Props.v — property-level theorems only. Part A (core level) below; part B (file level: raftfs state file and
+   snapshot manager over CrashFS) appends its theorems to this file.  Tags are read by bin/check. *)
 From Coq Require Import List NArith ZArith.
-From BLB Require Import Raft.Core C07.A_Proofs.
+From BLB Require Import Raft.Core Raft.Wire Raft.Legit Raft.NodeProofs C07.A_Witness C07.A_Repaired C07.A_Proofs.
 Import ListNotations.
 Open Scope N_scope.
 
-(* [PARTIAL] building block: the durable term is written by no storage mutation other than SaveState *)
-Theorem term_written_only_by_save_state :
-  forall p m, p_term (apply_mut p m) <> p_term p -> exists v t, m = MSaveState v t.
-Proof. exact C07.A_Proofs.term_written_only_by_save_state. Qed.
-Print Assumptions term_written_only_by_save_state.
+(* [FULL] part A, "does not forget a term or vote it acted on": for every node state, every event and every crash
+   point k inside it (crash right after the k-th durable mutation, then newCore on the surviving storage) the restarted
+   node's durable term is not below the old one, within the same term a vote that was cast is still the same vote, and
+   the crashed handler has sent nothing (the restarted node is a follower with an empty outbox) *)
+Theorem crash_keeps_term_and_vote :
+  forall s ev k st s',
+    run_event_crash s ev k = Ret (true, st, s') ->
+    p_term (n_p s) <= p_term (n_p s') /\
+    (p_term (n_p s') = p_term (n_p s) -> p_vote (n_p s) <> 0 -> p_vote (n_p s') = p_vote (n_p s)) /\
+    n_role s' = Follower /\ n_msgs s' = [].
+Proof. exact crash_keeps_term_and_vote_lemma. Qed.
+Print Assumptions crash_keeps_term_and_vote.
+
+(* [REFUTED] part A, restart_never_fatal fails on the current code (finding F10): there is a schedule of legitimate events only
+   (every delivered message was emitted earlier in the run, the snapshot is of committed applied state) with one crash
+   between two durable mutations (op 10: handleSnapshot after the snapshot Commit, before log.Truncate) after which the
+   leader's next AppEnts drives the restarted follower into the Fatalf `there's gap between last entry ...` *)
+Theorem restart_never_fatal_refuted :
+  exists ops, legit_schedule ops = true /\ observes [666%Z; Z.of_N F_GAP] ops = true /\
+              existsb (fun op => match op with 10%Z :: _ => true | _ => false end) ops = true.
+Proof. exists f10_witness. exact f10_witness_ok. Qed.
+Print Assumptions restart_never_fatal_refuted.
+
+(* [FULL] part A, the carved-out version for the repaired start-up (newCore reconciles log and snapshot first): from every surviving
+   persistent state with a contiguous 1-based log, i.e. after a crash at any point whatsoever, the repaired newCore
+   leaves storage in which the snapshot is a prefix of the log *)
+Theorem restart_repaired_storage_consistent :
+  forall id cfg p s1, log_wf (p_log p) -> new_core_fixed id cfg p = Ret s1 -> storage_ok (n_p s1).
+Proof. exact new_core_fixed_consistent. Qed.
+Print Assumptions restart_repaired_storage_consistent.
+
+(* [FULL] part A, on storage in which the snapshot is a prefix of the log no AppEnts whose entries start right after
+   prevLogIndex, whatever else it carries, can reach the gap Fatalf that F10 dies with *)
+Theorem no_gap_fatal_on_consistent_storage :
+  forall s from pi pt cm e0 rest,
+    storage_ok (n_p s) -> e_index e0 = pi + 1 ->
+    handle_app_ents s from pi pt cm (Some (e0 :: rest)) <> Fatal F_GAP.
+Proof. exact no_gap_when_consistent. Qed.
+Print Assumptions no_gap_fatal_on_consistent_storage.
